@@ -103,9 +103,10 @@ def skeletons(paths):
     fns=functions(src)
     api=['setup','update_msk','rekey','prune_master_secret_key','generate_user_secret_key','refresh_usk','recaps',
          'encaps','decaps','encrypt','decrypt','generate','rng']
-    methods=set(api)
+    # every function of these files is a possible callee (private helpers that take the lock are followed too)
+    methods=set(api)|set(fns.keys())
     sk={}
-    for name in api:
+    for name in list(api)+[n for n in fns if n not in api]:
         for k,body in enumerate(fns.get(name,[])):
             key=name if len(fns[name])==1 else f'{name}_{k}'
             if name=='rng': sk[key]=['AcqRet']; continue
@@ -124,7 +125,8 @@ def inline(sk):
                 out+=best
             else: out.append(e)
         return out
-    return {k:expand(v) for k,v in sk.items() if k!='rng'}
+    return {k:expand(v) for k,v in sk.items() if k!='rng' and (k in API_OUT or k.split('_')[0] in API_OUT or any(k.startswith(a+'_') for a in API_OUT))}
+API_OUT=['setup','update_msk','rekey','prune_master_secret_key','generate_user_secret_key','refresh_usk','recaps','encaps','decaps','encrypt','decrypt','generate']
 
 def coq_file(sk):
     out = ['(* GENERATED by tools/lockskel.py from src/api.rs and src/encrypted_header.rs of the repository - do not edit. *)',
